@@ -714,3 +714,80 @@ def enumerate_small(tier):
                     text = '\n'.join(lines) + nl
                     inc = _SMALL_INC[(sum(combo) + n) % len(_SMALL_INC)]
                     yield {'files': {ROOT: text, 'inc.xly': inc}}
+
+
+# ---- coverage-guided campaign: bytes -> document over an alphabet of chunks ------------------------------
+# Every item is a chunk of one or more lines.  Complete multi-line instructions are atomic chunks; the single
+# lines that can leave something open (`<<EOF`, `(`, `{`, a description delimiter, an incomplete instruction) or
+# close it (`EOF`, `}`) are items of their own, so that the fuzzer can nest and interleave them freely.
+# No line starts with an infix operator (whether `&&` / `||` at the start of a line continues the expression of the
+# previous instruction is C06's subject), no line is a lone `)`.
+_FUZZ_ITEMS = [
+    # headers
+    ['[setup]'], ['[assert]'], ['[act]'], ['[conf]'], ['[cleanup]'], ['[before-assert]'], ['  [act] '], ['\t[setup]\t'],
+    ['[nophase]'], ['[setup'], ['[setup] x'],
+    # comments, blanks
+    ['# c'], ['  #[setup]'], [''], ['   '],
+    # one-line instructions (some phase-specific: in another phase they are unknown instructions)
+    ['dir T'], ['file T.txt = "x"'], ['exit-code == 0'], ['status = PASS'], ['$ echo "(" [x] `'], ['def string ST = "v"'],
+    ['run % echo T'], ['stdout is-empty'], ['timeout = 5'],
+    # here-documents: atomic, and in pieces
+    ['file T = <<EOF', '[assert]', '# c', '', 'including inc.xly', 'EOF'], ['stdout equals <<EOF', 'EOF'],
+    ['def string ST = <<-', '  [setup]', '`', '-'],
+    ['file T = <<EOF'], ['EOF'], [' EOF'], ['plain text'],
+    # parentheses, operators, lists
+    ['exit-code (', ' == 1', ')'], ['def integer-matcher IT = ( == 1 ||', '', '  ( == 2 ) )'],
+    ['stderr ( equals <<EOF', '[setup]', 'EOF', ' || is-empty )'], ['exit-code == 0 ||', '', ' == 1'], ['exit-code !', ' == 1'],
+    ['def list LT = a \\', ' b c'], ['exit-code ('], ['def list LT = a \\'],
+    # braces, STDIN of a program
+    ['dir T = {', '  file a = <<EOF', '[act]', 'EOF', '', '  dir b = {', '  }', '}'], ['dir T = {'], ['  file a'], ['}'],
+    ['dir-contents . : ! matches {', '  a : type file', '}'],
+    ['run % cat', '  -stdin <<EOF', '[act]', 'EOF'], ['run % cat'], ['  -stdin "x"'],
+    # descriptions
+    ['`d`'], ['`d` dir T'], ['`open', '[assert]', '# c'], ['close`'], ['` dir T'], ['`d`', '', '# c', 'dir T'],
+    # act phase lines
+    ['act line T'], ['\\[x]'], ['  \\\\y'], ['\\[setup]'], ['a\\[b'],
+    # incomplete / unknown
+    ['dir'], ['file'], ['timeout ='], ['def string ST ='], ['exit-code'], ['no-such-instruction T'],
+    # directives (the targets 0..3 are rendered relative to the including file)
+    ['including', 0], ['including', 1], ['including', 2], ['including', 3], ['including', 1], ['including', 2],
+    ['including missing.xly'], ['including'], ['including a b'], ['  including', 1],
+]
+_FUZZ_NEXT_FILE = len(_FUZZ_ITEMS)
+_FUZZ_FILES = [['t.case', 'inc.xly', 'sub/inc2.xly', 'other/inc3.xly'],
+               ['sub/t.case', 'sub/inc.xly', 'inc2.xly', 'sub/deep/inc3.xly']]
+
+
+def decode_doc(data: bytes):
+    """bytes -> API case.  Byte 0: bit 0 = no final newline in the root file, bit 1 = root file in a sub-directory,
+    bit 2 = root given by absolute path; every further byte selects an item of _FUZZ_ITEMS for the current file or
+    moves on to the next one of the four files (structured decoding: coverage feedback works on the structure)."""
+    if not data:
+        return {'files': {ROOT: ''}}
+    flags = data[0]
+    names = _FUZZ_FILES[(flags >> 1) & 1]
+    texts = [[] for _ in names]
+    cur = 0
+    for k, b in enumerate(data[1:]):
+        i = b % (_FUZZ_NEXT_FILE + 1)
+        if i == _FUZZ_NEXT_FILE:
+            cur = min(cur + 1, len(names) - 1)
+            continue
+        item = _FUZZ_ITEMS[i]
+        if len(item) == 2 and isinstance(item[1], int):
+            rel = posixpath.relpath(names[item[1]], posixpath.dirname(names[cur]) or '.')
+            texts[cur].append('%s %s' % (item[0], rel))
+        else:
+            texts[cur].extend(x.replace('T', 't%d' % k) for x in item)
+    files = {}
+    for n, (name, lines) in enumerate(zip(names, texts)):
+        text = '\n'.join(lines)
+        if lines and not (n == 0 and flags & 1):
+            text += '\n'
+        files[name] = text
+    case = {'files': files}
+    if names[0] != ROOT:
+        case['root'] = names[0]
+    if flags & 4:
+        case['root_abs'] = True
+    return case
